@@ -710,3 +710,53 @@ func hostSeen(sc scenario, obs origin.Obs) string {
 	}
 	return ""
 }
+
+
+// sweepCells: (1) every byte value inside a cookie value and inside a cookie name; (2) every header
+// the writers handle themselves x values that cannot be sent (CR LF + an injected line / request,
+// NUL, DEL, other control bytes) at request and client level. Oracle as for every request cell:
+// sent exactly, or the call fails.
+func sweepCells(r *hk.Run, rng *hk.Rand, run func(sc scenario), proto int, full bool) {
+	plain := func() scenario {
+		l := "sweep"
+		return scenario{Proto: proto, Method: "GET", BodyKind: "none",
+			URL: urlSpec{Class: "clean", Segs: [][]tok{{{Lit: l, Dec: l}}}, RPath: map[string]string{}, CPath: map[string]string{}}}
+	}
+	step := 1
+	if !full {
+		step = 5 // a fifth of the byte values per run on the other protocols, shifted by the seed
+	}
+	for b := rng.Intn(step); b < 256; b += step {
+		sc := plain()
+		sc.ReqCk = []cookieJ{{"sid", "a" + string([]byte{byte(b)}) + "z"}}
+		r.Count("sweep.cookie-value")
+		run(sc)
+		sc = plain()
+		sc.CliCk = []cookieJ{{"n" + string([]byte{byte(b)}) + "m", "v"}}
+		r.Count("sweep.cookie-name")
+		run(sc)
+	}
+	bad := []string{"a\r\nX-Injected: 1", "a\r\n\r\nGET /smuggled HTTP/1.1\r\nHost: x\r\n\r\n", "a\nb", "a\rb", "a\x00b", "a\x7fb", "a\x01b", "a\x1fb"}
+	for _, k := range []string{"User-Agent", "Host", "Content-Length", "Transfer-Encoding", "Trailer", "Accept-Encoding", "Connection", "Cookie", "Content-Type", "Expect", "Referer", "Authorization"} {
+		for i, v := range bad {
+			if !full && (i+len(k))%3 != 0 {
+				continue
+			}
+			sc := plain()
+			op := hdrOp{Kind: "set", K: k, V: v}
+			if i%2 == 0 {
+				sc.Req = []hdrOp{op}
+			} else {
+				sc.Cli = []hdrOp{op}
+			}
+			r.Count("sweep.writer-header-unsafe")
+			run(sc)
+		}
+	}
+	for _, v := range []string{"a\tb", "tab\t", "ü", "a b (c; d) e/1.0", "\x80\xff"} { // sendable: must arrive exactly
+		sc := plain()
+		sc.Req = []hdrOp{{Kind: "set", K: "User-Agent", V: v}}
+		r.Count("sweep.user-agent-sendable")
+		run(sc)
+	}
+}
